@@ -12,10 +12,12 @@ package main
 import (
 	"encoding/base64"
 	"fmt"
+	"io"
 	"net"
 	"net/http"
 	"net/http/httptest"
 	"net/textproto"
+	"os"
 	"sort"
 	"strings"
 	"sync"
@@ -24,7 +26,9 @@ import (
 	middlewareapi "github.com/oauth2-proxy/oauth2-proxy/v7/pkg/apis/middleware"
 	"github.com/oauth2-proxy/oauth2-proxy/v7/pkg/apis/options"
 	sessionsapi "github.com/oauth2-proxy/oauth2-proxy/v7/pkg/apis/sessions"
+	"github.com/oauth2-proxy/oauth2-proxy/v7/pkg/logger"
 	"github.com/oauth2-proxy/oauth2-proxy/v7/pkg/middleware"
+	"github.com/spf13/pflag"
 )
 
 // ---------------------------------------------------------------------------------------
@@ -841,8 +845,79 @@ func hdrLegacy(c *suiteCtx) {
 					c.violation("C07", "legacy conversion: PreserveRequestValue does not follow skip-auth-strip-headers", map[string]interface{}{"flags": fmt.Sprintf("%+v", l), "header": h.Name})
 				}
 			}
+			// the same combination as a user writes it (command line or TOML file, a flag at its documented default left
+			// out half of the time) through the real loader: the header lists in force are the ones the conversion of
+			// exactly these flag values gives
+			if lrq, lrs, input, ok := legacyHeadersViaLoader(c, l, m); ok {
+				c.casen(fmt.Sprintf("legacy-loader|%d|%s", m, pw), "")
+				c.count("legacy:loader")
+				want := encCfg(fromOptionHeaders(rq)) + " " + encCfg(fromOptionHeaders(rs))
+				got := encCfg(fromOptionHeaders(lrq)) + " " + encCfg(fromOptionHeaders(lrs))
+				if got != want {
+					input["flags"] = fmt.Sprintf("%+v", l)
+					input["in_force"] = got
+					input["configured"] = want
+					c.violation("C07", "the header flags as the operator writes them configure other injected / stripped headers than those flag values mean (a flag default, a flag name or the loader changed)", input)
+				}
+			}
 		}
 	}
+}
+
+// legacyHeadersViaLoader writes the header flags of `l` as command-line arguments or as a TOML file, runs the real
+// configuration loader and returns the header lists of the resulting options
+func legacyHeadersViaLoader(c *suiteCtx, l options.LegacyHeaders, m int) (rq, rs []options.Header, input map[string]interface{}, ok bool) {
+	type fl struct {
+		name string
+		val  interface{}
+		def  interface{} // docs/docs/configuration/overview.md
+	}
+	flags := []fl{{"pass-basic-auth", l.PassBasicAuth, true}, {"pass-access-token", l.PassAccessToken, false},
+		{"pass-user-headers", l.PassUserHeaders, true}, {"pass-authorization-header", l.PassAuthorization, false},
+		{"set-basic-auth", l.SetBasicAuth, false}, {"set-xauthrequest", l.SetXAuthRequest, false},
+		{"set-authorization-header", l.SetAuthorization, false}, {"prefer-email-to-user", l.PreferEmailToUser, false},
+		{"basic-auth-password", l.BasicAuthPassword, ""}, {"skip-auth-strip-headers", l.SkipAuthStripHeaders, true}}
+	h := hash64(fmt.Sprintf("%d|%d|%s", c.seed, m, l.BasicAuthPassword))
+	asTOML := h&1 == 1
+	var args []string
+	var toml strings.Builder
+	for i, f := range flags {
+		if f.val == f.def && (h>>(uint(i)+1))&1 == 1 {
+			continue
+		}
+		if asTOML {
+			if sv, isStr := f.val.(string); isStr {
+				fmt.Fprintf(&toml, "%s = %s\n", strings.ReplaceAll(f.name, "-", "_"), tomlString(sv))
+			} else {
+				fmt.Fprintf(&toml, "%s = %v\n", strings.ReplaceAll(f.name, "-", "_"), f.val)
+			}
+		} else {
+			args = append(args, fmt.Sprintf("--%s=%v", f.name, f.val))
+		}
+	}
+	input = map[string]interface{}{"args": args}
+	configFile := ""
+	if asTOML {
+		f, err := os.CreateTemp("", "verif-hdr-*.cfg")
+		if err != nil {
+			return nil, nil, nil, false
+		}
+		f.WriteString(toml.String())
+		f.Close()
+		defer os.Remove(f.Name())
+		configFile = f.Name()
+		input["config_file"] = toml.String()
+	}
+	extra := pflag.NewFlagSet("oauth2-proxy", pflag.ContinueOnError)
+	o, err := loadConfiguration(configFile, "", extra, args)
+	logger.SetOutput(io.Discard)
+	logger.SetErrOutput(io.Discard)
+	if err != nil {
+		input["error"] = err.Error()
+		c.violation("C07", "the configuration loader rejects plain header flags", input)
+		return nil, nil, nil, false
+	}
+	return o.InjectRequestHeaders, o.InjectResponseHeaders, input, true
 }
 
 // ---------------------------------------------------------------------------------------
